@@ -84,3 +84,93 @@ func (s *sched) schedule() {
 		s.counter = 0
 	})
 }
+
+// counting loops: `$i` and the variant are read off `for i := 0; i < n; i++` when the contract gives neither
+func okMaxIndexCounting(a []int) int {
+	best := 0
+	for i := 0; i < len(a); i++ {
+		if a[i] > a[best] {
+			best = i
+		}
+	}
+	return best
+}
+
+func badMaxIndexCountingShort_ensures(a []int) int {
+	best := 0
+	for i := 0; i < len(a)-1; i++ {
+		if a[i] > a[best] {
+			best = i
+		}
+	}
+	return best
+}
+
+func badCountingStalls_decreases(a []int) int {
+	n := 0
+	for i := 0; i < len(a); i++ {
+		if a[i] == 7 {
+			i--
+		}
+		n++
+	}
+	return n
+}
+
+func okCountingDown(n int) int {
+	s := 0
+	for k := n; k > 0; k -= 1 {
+		s++
+	}
+	return s
+}
+
+// publication of an object under construction: a closure that captures it is handed to foreign code (a timer)
+type gauge struct {
+	mu    sync.Mutex
+	level int
+	limit int
+}
+
+var startTimer = func(f func()) {}
+
+func (g *gauge) arm() {
+	startTimer(func() {
+		g.mu.Lock()
+		defer g.mu.Unlock()
+		g.level = g.limit
+	})
+}
+
+// the timer is armed before the invariant (level <= limit) holds and the fields are written without the lock afterwards
+func badNewGaugeEarly_publish(limit int) *gauge {
+	g := &gauge{level: limit + 1}
+	g.arm()
+	g.limit = limit + 1
+	return g
+}
+
+// the same constructor writes a guarded field after the object was handed out
+func badNewGaugeLate_guard(limit int) *gauge {
+	g := &gauge{level: limit, limit: limit}
+	g.arm()
+	g.level = 0
+	return g
+}
+
+// holding the object's own lock while it is built is enough: the callback cannot run before the release
+func okNewGaugeLocked(limit int) *gauge {
+	g := &gauge{level: limit + 1}
+	g.mu.Lock()
+	defer g.mu.Unlock()
+	g.arm()
+	g.limit = limit + 1
+	return g
+}
+
+// and so is arming the timer only when the object is complete
+func okNewGaugeComplete(limit int) *gauge {
+	g := &gauge{level: limit, limit: limit}
+	g.arm()
+	return g
+}
